@@ -304,6 +304,61 @@ def cached_functions():
     return rows
 
 
+# ------------------------------------------------------------------ constraints.py: how a constraint given twice is merged
+
+def constraint_merges():
+    """(field name, JSON schema keyword, merge operation) for every field of `Constraints`; the merge operation is resolved to
+    one of max / min / or / lcm / fail, by reading the aliases (min_, max_ = min, max) and the bodies of the merge helpers."""
+    m = _mod("constraints.py")
+    resolved = {}
+    for node in m.body:
+        if isinstance(node, ast.Assign) and ast.unparse(node).replace(" ", "") == "min_,max_=(min,max)":
+            resolved["min_"], resolved["max_"] = "min", "max"
+        if isinstance(node, ast.Assign) and ast.unparse(node).replace(" ", "") == "min_,max_=min,max":
+            resolved["min_"], resolved["max_"] = "min", "max"
+        if isinstance(node, ast.FunctionDef) and node.name == "merge_mult_of":
+            body = [ast.unparse(st) for st in node.body]
+            args = [a.arg for a in node.args.args]
+            want = ["if not isinstance(m1, int) or not isinstance(m2, int):\n    raise TypeError('multipleOf merging is only supported with integers')",
+                    "return m1 * m2 // gcd(m1, m2)"]
+            if args == ["m1", "m2"] and body == want:
+                resolved["merge_mult_of"] = "lcm"
+        if isinstance(node, ast.FunctionDef) and node.name == "merge_pattern":
+            if len(node.body) == 1 and isinstance(node.body[0], ast.Raise):
+                resolved["merge_pattern"] = "fail"
+    imports_gcd = any(isinstance(n, ast.ImportFrom) and n.module == "math" and any(a.name == "gcd" and a.asname is None for a in n.names)
+                      for n in m.body)
+    if not imports_gcd:
+        resolved.pop("merge_mult_of", None)
+    if any(isinstance(n, ast.Import) and any(a.name == "operator" and a.asname == "op" for a in n.names) for n in m.body):
+        resolved["op.or_"] = "or"
+    rows = []
+    for node in m.body:
+        if isinstance(node, ast.ClassDef) and node.name == "Constraints":
+            for st in node.body:
+                if isinstance(st, ast.AnnAssign) and isinstance(st.target, ast.Name) and isinstance(st.value, ast.Call) \
+                        and ast.unparse(st.value.func) == "constraint":
+                    if len(st.value.args) != 3 or st.value.keywords:
+                        raise Cannot(f"constraints.py: constraint({st.target.id}) has an unexpected call shape")
+                    alias = ast.literal_eval(st.value.args[0])
+                    merge = ast.unparse(st.value.args[2])
+                    if merge not in resolved:
+                        raise Cannot(f"constraints.py: merge operation {merge} of {st.target.id} is not one the translator can read")
+                    rows.append((st.target.id, alias, resolved[merge]))
+    if not rows:
+        raise Cannot("constraints.py: class Constraints not found")
+    # merge_constraints must apply metadata.merge only when both sides are given
+    fn = [n for n in m.body if isinstance(n, ast.FunctionDef) and n.name == "merge_constraints"]
+    if len(fn) != 1:
+        raise Cannot("constraints.py: merge_constraints not found")
+    txt = ast.unparse(fn[0])
+    for frag in ("if attr1 is None:\n            constraints[name] = attr2", "elif attr2 is None:\n            constraints[name] = attr1",
+                 "else:\n            constraints[name] = metadata.merge(attr1, attr2)"):
+        if frag not in txt:
+            raise Cannot("constraints.py: merge_constraints changed shape")
+    return rows
+
+
 # ------------------------------------------------------------------ emit
 
 def generate():
@@ -354,6 +409,10 @@ def generate():
     if r:
         L.append("Definition cached_functions : list (string * bool) := "
                  + core.coq_list([f"({cstr(a)}, {core.coq_bool(b)})" for a, b in r]) + ".")
+    r = guard(constraint_merges, "Definition constraint_merges : list (string * string * string) := [(\"unreadable\", \"\", \"\")].", "constraint merges")
+    if r:
+        L.append("Definition constraint_merges : list (string * string * string) := "
+                 + core.coq_list([f"({cstr(a)}, {cstr(b)}, {cstr(c)})" for a, b, c in r]) + ".")
     return "\n".join(L) + "\n", errs
 
 
